@@ -98,10 +98,33 @@ ArrOps == {EBin(op, a, b) : op \in {"+", "==", "!="}, a \in NumArrs, b \in NumAr
                 ECallB("sprint", <<TN(1, I(1)), TS(2, <<120>>), TB(3, TRUE)>>),
                 ECallB("max", <<TN(1, I(1)), TN(2, I(2))>>)}
 
+\* (c) list elements are separated by whitespace: every kind of expression as an argument / array element,
+\*     followed by an element that starts with - [ ( ! " { or a name; the program declares what it needs first
+VA == EVar("a", TArr(T_num))
+VM == EVar("m", TMap(T_num))
+VX == EVar("x", T_any)
+VB == EVar("b", T_num)
+VT == EVar("t", T_bool)
+Firsts == << VB, ENum(I(7)), EStr(<<115>>), EIdx(VA, ENum(I(0))), EIdx(VA, EUn("-", ENum(I(1)))), ESlice(VA, <<>>, <<ENum(I(1))>>),
+             ESlice(VA, <<ENum(I(1))>>, <<>>), EDot(VM, K_a), EIdx(VM, EStr(K_a)), EGrp(EBin("+", VB, ENum(I(1)))),
+             ECallB("len", <<VA>>), EAssert(VX, T_num), EArr(<<ENum(I(1))>>), EMap(<<K_a>>, <<ENum(I(1))>>), EUn("-", VB), VT,
+             EBin("+", VB, ENum(I(1))), EIdx(EStr(<<97, 98>>), ENum(I(1))), EBool(TRUE), EUn("!", VT) >>
+Seconds == << EUn("-", ENum(I(1))), EUn("-", VB), EArr(<<ENum(I(0))>>), EArr(<<>>), EGrp(ENum(I(2))), EUn("!", VT), EStr(<<122>>),
+              EMap(<<K_b>>, <<ENum(I(2))>>), VB, EUn("-", EGrp(EBin("*", VB, ENum(I(2))))), ECallB("len", <<VA>>), EIdx(VA, ENum(I(1))) >>
+ListPre == <<SInfer("a", EArr(<<ENum(I(5)), ENum(I(6))>>)), SInfer("m", EMap(<<K_a>>, <<ENum(I(3))>>)), SDecl("x", T_any), SAsg(VX, ENum(I(4))),
+             SInfer("b", ENum(I(1))), SInfer("t", EBool(FALSE))>>
+ListProg(i, j, how) ==
+  Program(ListPre \o <<CASE how = "args" -> SCall(ECallB("print", <<Firsts[i], Seconds[j], Firsts[i]>>))
+                          [] how = "array" -> SCall(ECallB("print", <<ECallB("len", <<EArr(<<Firsts[i], Seconds[j], Firsts[i]>>)>>), EArr(<<Firsts[i], Seconds[j]>>)>>))
+                          [] OTHER -> SCall(ECallB("print", <<EMap(<<K_a, K_b>>, <<Firsts[i], Seconds[j]>>), ECallB("sprint", <<Seconds[j], Firsts[i]>>)>>)),
+                        SCall(ECallB("print", <<VA, VM, VX, VB, VT>>))>>,
+          <<>>, <<>>)
+ListProgs == {ListProg(i, j, how) : i \in DOMAIN Firsts, j \in DOMAIN Seconds, how \in {"args", "array", "map"}}
+
 Table == NumOps \cup StrOps \cup BoolOps \cup UnOps \cup ArrOps
 
 CasesOf(class, es) == {MkCase("FamExpr", class, PrintProg(e)) : e \in es}
-FamCases == CasesOf("lattice", Lattice) \cup CasesOf("table", Table)
+FamCases == CasesOf("lattice", Lattice) \cup CasesOf("table", Table) \cup {MkCase("FamExpr", "list", p) : p \in ListProgs}
 FamInit == InitWith(FamCases)
 
 =============================================================================
